@@ -602,6 +602,26 @@ def goStart (cfg : Cfg) (aP : A) (wNew : List Nat) (pre : List Ev) : A :=
       (aP.chk ((Spec.closes pre).isEmpty || !(Spec.wfails pre).isEmpty) "C07"
         "a connection was closed before any frame was read in this round") none pre) none pre) pre with w := wNew }
 
+/-- the same for a stretch that spans two polls (`Spec.checkDeparturesAny`) -/
+def goStartU (cfg : Cfg) (aP : A) (wNew : List Nat) (wU : Option (List Nat)) (pre : List Ev) : A :=
+  { Spec.applyDepartures (Spec.checkDeparturesAny cfg (Spec.checkNoticeOrigin cfg
+      (aP.chk ((Spec.closes pre).isEmpty || !(Spec.wfails pre).isEmpty) "C07"
+        "a connection was closed before any frame was read in this round") none pre) wU none pre) pre with w := wNew }
+
+theorem goStartU_none (cfg : Cfg) (aP : A) (wNew : List Nat) (pre : List Ev) :
+    goStartU cfg aP wNew none pre = goStart cfg aP wNew pre := rfl
+
+/-- the second writable set of the stretch before the first read: the union of the two polls when the stretch is the whole
+    round -/
+def preU (a : A) (r : Round) (segs : List (Nat × List Ev)) : Option (List Nat) :=
+  if segs.isEmpty then some ((preAcc a r).w ++ preW a r) else none
+
+theorem preU_ne (a : A) (r : Round) {segs : List (Nat × List Ev)} (h : segs ≠ []) : preU a r segs = none := by
+  unfold preU
+  cases segs with
+  | nil => exact absurd rfl h
+  | cons _ _ => rfl
+
 /-- the end of `Spec.round`: tallies for the statistics checks and the periodic section -/
 def roundEnd (cfg : Cfg) (a : A) (pre : List Ev) (segs : List (Nat × List Ev)) : A :=
   let a := if segs.isEmpty then a else (pre :: (segs.dropLast.map (·.2))).foldl (Spec.noteMgrFrames cfg) a
@@ -609,8 +629,9 @@ def roundEnd (cfg : Cfg) (a : A) (pre : List Ev) (segs : List (Nat × List Ev)) 
   Spec.tail cfg a lastEvs
 
 /-- the rest of `Spec.round` -/
-def roundRest (cfg : Cfg) (aP : A) (wNew : List Nat) (reads : List Read) (pre : List Ev) (segs : List (Nat × List Ev)) : A :=
-  roundEnd cfg (Spec.roundBody.go cfg (goStart cfg aP wNew pre) reads segs (reads.length + segs.length + 1)) pre segs
+def roundRest (cfg : Cfg) (aP : A) (wNew : List Nat) (wU : Option (List Nat)) (reads : List Read) (pre : List Ev)
+    (segs : List (Nat × List Ev)) : A :=
+  roundEnd cfg (Spec.roundBody.go cfg (goStartU cfg aP wNew wU pre) reads segs (reads.length + segs.length + 1)) pre segs
 
 theorem applyDepartures_withW (a : A) (w : List Nat) (evs : List Ev) :
     Spec.applyDepartures ({ a with w := w } : A) evs = ({ Spec.applyDepartures a evs with w := w } : A) := by
@@ -652,6 +673,41 @@ theorem goStart_c07 {cfg : Cfg} {aP : A} (wNew : List Nat) (pre : List Ev)
   show Spec.NoErr "C07" (Spec.applyDepartures _ pre)
   exact noErr_applyDepartures pre (hDD.noErr (by simp) (hN.noErr (by simp) hn))
 
+theorem goStartU_ext (cfg : Cfg) (aP : A) (wNew : List Nat) (wU : Option (List Nat)) (pre : List Ev) :
+    ∃ X, Spec.CoreExt ("C07" :: others) ({ aP with w := wNew } : A) X ∧ goStartU cfg aP wNew wU pre = Spec.applyDepartures X pre := by
+  have h : Spec.CoreExt ("C07" :: others) aP (Spec.checkDeparturesAny cfg (Spec.checkNoticeOrigin cfg
+      (aP.chk ((Spec.closes pre).isEmpty || !(Spec.wfails pre).isEmpty) "C07"
+        "a connection was closed before any frame was read in this round") none pre) wU none pre) :=
+    (((Spec.errExt_chk ["C07"] aP _ "C07" _ (by simp)).mono (by simp)).core.trans
+      ((Spec.checkNoticeOrigin_ext cfg _ none pre).mono (by simp [others])).core).trans
+      ((Spec.checkDeparturesAny_ext cfg _ wU none pre).mono (by simp [others])).core
+  exact ⟨_, coreExt_withW h wNew, by unfold goStartU; exact (applyDepartures_withW _ wNew pre).symm⟩
+
+theorem goStartU_c07 {cfg : Cfg} {aP : A} (wNew : List Nat) (wU : Option (List Nat)) (pre : List Ev)
+    (hjust : ∀ v, Ev.close v ∈ pre → Ev.wfail v ∈ pre)
+    (hD : ∀ X, Spec.CoreExt ["C14"] aP X → Spec.ErrExt ["C14"] X (Spec.checkDepartures cfg X none pre))
+    (hn : Spec.NoErr "C07" aP) : Spec.NoErr "C07" (goStartU cfg aP wNew wU pre) := by
+  cases wU with
+  | none => exact goStart_c07 wNew pre hjust hD hn
+  | some v =>
+    unfold goStartU
+    have h1 : ((Spec.closes pre).isEmpty || !(Spec.wfails pre).isEmpty) = true := by
+      cases hc : Spec.closes pre with
+      | nil => rfl
+      | cons u rest =>
+        have hv : Ev.close u ∈ pre := (mem_closes pre u).mp (by rw [hc]; simp)
+        have : u ∈ Spec.wfails pre := (Spec.mem_wfails pre u).mpr (hjust u hv)
+        cases hwf : Spec.wfails pre with
+        | nil => rw [hwf] at this; cases this
+        | cons _ _ => rfl
+    rw [Spec.chk_of _ _ _ _ h1]
+    have hN := Spec.checkNoticeOrigin_ext cfg aP none pre
+    have hN' : Spec.CoreExt ["C14"] aP ({ Spec.checkNoticeOrigin cfg aP none pre with wAny := v } : A) :=
+      ⟨hN.core.mods, hN.core.buf, hN.core.fail, hN.core.w, hN.core.nAccepted, hN.core.errs⟩
+    have hDD := Spec.errExt_any (hD _ hN')
+    show Spec.NoErr "C07" (Spec.applyDepartures _ pre)
+    exact noErr_applyDepartures pre (hDD.noErr (by simp) (hN.noErr (by simp) hn))
+
 theorem roundEnd_ext (cfg : Cfg) (a : A) (pre : List Ev) (segs : List (Nat × List Ev)) :
     Spec.CoreExt others a (roundEnd cfg a pre segs) := by
   unfold roundEnd
@@ -664,8 +720,9 @@ theorem roundEnd_ext (cfg : Cfg) (a : A) (pre : List Ev) (segs : List (Nat × Li
 
 theorem round_eq (cfg : Cfg) (a : A) (r : Round) (evs : List Ev) :
     Spec.round cfg a r evs =
-      roundRest cfg (preSt a r (Spec.splitRd evs).2) (preW a r) (preReads a r) (Spec.splitRd evs).1 (Spec.splitRd evs).2 := by
-  unfold Spec.round Spec.roundBody roundRest roundEnd goStart preSt preAcc preW preReads envA
+      roundRest cfg (preSt a r (Spec.splitRd evs).2) (preW a r) (preU a r (Spec.splitRd evs).2) (preReads a r)
+        (Spec.splitRd evs).1 (Spec.splitRd evs).2 := by
+  unfold Spec.round Spec.roundBody roundRest roundEnd goStartU preU preSt preAcc preW preReads envA
   rfl
 
 /-- the model state in which the frames of the round are read -/
@@ -1018,28 +1075,28 @@ theorem round_ok {a : A} {s : State} (inv : Inv cfg a s) (r : Round) (hwf : Roun
     simp only [List.length_nil, Nat.add_zero]
     rw [preSt_nil]
     generalize hwP : (preAcc a r).w.filter ((preW a r).contains ·) = wP
-    obtain ⟨X, hX, hgs⟩ := goStart_ext cfg ({ preAcc a r with w := wP } : A) (preW a r) evs
+    obtain ⟨X, hX, hgs⟩ := goStartU_ext cfg ({ preAcc a r with w := wP } : A) (preW a r) (preU a r []) evs
     have hX' : Spec.CoreExt ("C07" :: others) ({ preAcc a r with w := preW a r } : A) X := hX
     have hsimA : SimM cfg (Spec.applyDepartures ({ preAcc a r with w := preW a r } : A) evs) (ticks cfg (readAll cfg reads sP)) := by
       rw [hevs, ← applyDepartures_append]
       have hn : Nest sP (ticks cfg (readAll cfg reads sP)) := by rw [hid]; exact ticks_nest cfg sP
       exact sim_quiet hsP tP.aopen q.top.aopen hn q.j (E1 ++ E2) hE
-    have hsimT : SimM cfg (goStart cfg ({ preAcc a r with w := wP } : A) (preW a r) evs) (ticks cfg (readAll cfg reads sP)) := by
+    have hsimT : SimM cfg (goStartU cfg ({ preAcc a r with w := wP } : A) (preW a r) (preU a r []) evs) (ticks cfg (readAll cfg reads sP)) := by
       rw [hgs]; exact sim_coreExt hsimA (Spec.applyDepartures_coreExt hX' _)
-    have hdead : ∀ x ∈ reads, (goStart cfg ({ preAcc a r with w := wP } : A) (preW a r) evs).live x.uid = none := by
+    have hdead : ∀ x ∈ reads, (goStartU cfg ({ preAcc a r with w := wP } : A) (preW a r) (preU a r []) evs).live x.uid = none := by
       intro x hx
       have hgone : (ticks cfg (readAll cfg reads sP)).find x.uid = none :=
         nest_gone q.nest q.top.aopen x.uid (by rw [hid]; exact hskip x hx)
-      cases hl : (goStart cfg ({ preAcc a r with w := wP } : A) (preW a r) evs).live x.uid with
+      cases hl : (goStartU cfg ({ preAcc a r with w := wP } : A) (preW a r) (preU a r []) evs).live x.uid with
       | none => rfl
       | some y =>
         have := (hsimT.live x.uid (hwf' x hx)).mp (by simp [hl])
         rw [hgone] at this; cases this
-    have hgo := go_dead cfg reads (goStart cfg ({ preAcc a r with w := wP } : A) (preW a r) evs) (reads.length + 1) hdead
-    have hend := roundEnd_ext cfg (Spec.roundBody.go cfg (goStart cfg ({ preAcc a r with w := wP } : A) (preW a r) evs) reads []
+    have hgo := go_dead cfg reads (goStartU cfg ({ preAcc a r with w := wP } : A) (preW a r) (preU a r []) evs) (reads.length + 1) hdead
+    have hend := roundEnd_ext cfg (Spec.roundBody.go cfg (goStartU cfg ({ preAcc a r with w := wP } : A) (preW a r) (preU a r []) evs) reads []
       (reads.length + 1)) evs []
-    have hallE : Spec.CoreExt others (goStart cfg ({ preAcc a r with w := wP } : A) (preW a r) evs)
-        (roundEnd cfg (Spec.roundBody.go cfg (goStart cfg ({ preAcc a r with w := wP } : A) (preW a r) evs) reads []
+    have hallE : Spec.CoreExt others (goStartU cfg ({ preAcc a r with w := wP } : A) (preW a r) (preU a r []) evs)
+        (roundEnd cfg (Spec.roundBody.go cfg (goStartU cfg ({ preAcc a r with w := wP } : A) (preW a r) (preU a r []) evs) reads []
           (reads.length + 1)) evs []) := by rw [hgo] at hend ⊢; exact hend
     refine ⟨⟨sim_coreExt hsimT hallE, q.top, q.j, q.t⟩, fun p hp hn => hallE.noErr (proven_not hp) ?_⟩
     have hn3 : Spec.NoErr p ({ preAcc a r with w := wP } : A) := by
@@ -1053,7 +1110,7 @@ theorem round_ok {a : A} {s : State} (inv : Inv cfg a s) (r : Round) (hwf : Roun
           rw [o]; congr 1; rw [hid]
         have : e = E1 ++ E2 := List.append_cancel_left (o'.symm.trans hE)
         rw [← this]; exact d
-      refine goStart_c07 (preW a r) evs (fun v hv => ?_) (fun Y hY => ?_) hn3
+      refine goStartU_c07 (preW a r) (preU a r []) evs (fun v hv => ?_) (fun Y hY => ?_) hn3
       · rw [hevs] at hv ⊢
         rcases List.mem_append.mp hv with h | h
         · exact List.mem_append.mpr (Or.inl ((d1'.just v h).resolve_left (by simp)))
@@ -1089,7 +1146,7 @@ theorem round_ok {a : A} {s : State} (inv : Inv cfg a s) (r : Round) (hwf : Roun
       · exact h7 x
       · exact proven_not hp x
   · -- at least one frame was read
-    rw [hsplit, hp1, List.append_nil, preSt_ne a r hp2]
+    rw [hsplit, hp1, List.append_nil, preSt_ne a r hp2, preU_ne a r hp2, goStartU_none]
     have hend := roundEnd_ext cfg (Spec.roundBody.go cfg (goStart cfg (preAcc a r) (preW a r) eAcc) reads (Spec.splitRd (E1 ++ E2)).2
       (reads.length + (Spec.splitRd (E1 ++ E2)).2.length + 1)) eAcc (Spec.splitRd (E1 ++ E2)).2
     exact ⟨⟨sim_coreExt hp3.sim hend, hp3.top, hp3.j, hp3.t⟩,
